@@ -479,8 +479,14 @@ func execC12Seq(in sx.V) sx.V {
 	if v, ok := c12Cache.Load("c12.seq " + in.String()); ok {
 		return v.(sx.V)
 	}
-	if acts := in.List[1].List; len(acts) == 1 && acts[0].Head() == "alive" {
-		_, fails, bad := runC12Alive(acts[0].List[1].I())
+	if acts := in.List[1].List; len(acts) == 1 && (acts[0].Head() == "alive" || acts[0].Head() == "outage") {
+		var fails []c12Fail
+		var bad string
+		if acts[0].Head() == "alive" {
+			_, fails, bad = runC12Alive(acts[0].List[1].I())
+		} else {
+			_, fails, bad = runC12Outage(acts[0].List[1].I() == 1)
+		}
 		if bad != "" {
 			return sx.L(sx.A("harness-error"), sx.Str(bad))
 		}
